@@ -24,7 +24,7 @@ ASSUMPTIONS = ['only events posted after start_at returned and with no stop are 
 PROBES = ['post_during_consumer_step', 'overflow_displaced_event']
 PLAN = {
   'quick': {'strata': {'no-overflow': 2500, 'overflow': 1500}, 'wall_s': 300, 'chunk': 50, 'min_conclusive': 800},
-  'thorough': {'strata': {'no-overflow': 70000, 'overflow': 40000}, 'wall_s': 900, 'chunk': 100, 'min_conclusive': 8000},
+  'thorough': {'strata': {'no-overflow': 70000, 'overflow': 40000}, 'wall_s': 900, 'chunk': 100, 'min_conclusive': 800},
 }
 
 
@@ -37,14 +37,15 @@ def generate(seed, stratum, tier):
     if rng.random() < 0.4:
       o['react'] = {'SA': [{'op': rng.choice(['post_fifo', 'post_lifo']), 'sig': rng.choice(['SB', 'SC']), 'id': 1, 'max': 2}]}
   cap = 500 if stratum == 'no-overflow' else rng.choice([3, 4, 6])
-  nclients = rng.randrange(1, 6)
+  big = common.deep(rng)
+  nclients = common.span(rng, 1, 6, big)
   clients = [[] for _ in range(nclients)]
   clients[0] += [['start', i] for i in range(nobj)]
   if rng.random() < 0.4:
     clients[0].append(['subscribe', rng.randrange(nobj), 'SD', 'fifo'])
     clients[0].append(['await_idle'])
   slot = 0
-  for _ in range(rng.randrange(2, 14)):
+  for _ in range(common.span(rng, 2, 14, big, 4)):
     c = rng.randrange(nclients)
     r = rng.random()
     oi = rng.randrange(nobj)
